@@ -436,6 +436,9 @@ func e2eNameTable() []e2eName {
 	}
 }
 
+// the name that gets two handler registrations on the receiving side
+const e2eTwice = 0
+
 func (n *e2eName) trailingStr() bool {
 	return len(n.Kinds) > 0 && e2eKinds[n.Kinds[len(n.Kinds)-1]].isStr
 }
@@ -514,6 +517,7 @@ type e2eRow struct {
 	Names     []e2eName `json:"names"`
 	Trailing  []bool    `json:"trailing"` // per name index: last handler parameter is a string
 	Arity     []int     `json:"arity"`
+	Twice     int       `json:"twice"` // name index registered twice (second registration records 100+index)
 	Emitted   []e2eEv   `json:"emitted"`
 	Delivered []e2eDel  `json:"delivered"`
 	Errors    []string  `json:"errors"`
@@ -601,7 +605,7 @@ func e2eSizeTargets(class string, r *vk.Rand) []int {
 	case "big":
 		return []int{100000 + r.Intn(50000), 200000 + r.Intn(100000)}
 	case "huge":
-		return []int{400000 + r.Intn(100000), 900000}
+		return []int{400000 + r.Intn(100000), 700000}
 	}
 	return []int{-1}
 }
@@ -615,6 +619,7 @@ func e2eRunScenario(scn e2eScn, lim e2eLimits) (row e2eRow) {
 		row.Trailing = append(row.Trailing, table[i].trailingStr())
 		row.Arity = append(row.Arity, len(table[i].Kinds))
 	}
+	row.Twice = e2eTwice
 	row.Emitted, row.Delivered, row.Errors, row.EmitPanic = []e2eEv{}, []e2eDel{}, []string{}, []string{}
 	rec := &e2eRecorder{errors: map[string]int{}}
 	rec.lastMove.Store(time.Now().UnixNano())
@@ -689,12 +694,17 @@ func e2eRunScenario(scn e2eScn, lim e2eLimits) (row e2eRow) {
 				for i, k := range n.Kinds {
 					in[i] = e2eKinds[k].typ
 				}
-				h := reflect.MakeFunc(reflect.FuncOf(in, nil, false), func(args []reflect.Value) []reflect.Value {
-					once.Do(func() { ci = idxOf(s.ID()) })
-					f := reflect.ValueOf(rec.handler(ci, ni, n))
-					return f.Call(args)
-				}).Interface()
-				s.OnEvent(n.Name, h)
+				mk := func(reg int) any {
+					return reflect.MakeFunc(reflect.FuncOf(in, nil, false), func(args []reflect.Value) []reflect.Value {
+						once.Do(func() { ci = idxOf(s.ID()) })
+						f := reflect.ValueOf(rec.handler(ci, reg, n))
+						return f.Call(args)
+					}).Interface()
+				}
+				s.OnEvent(n.Name, mk(ni))
+				if ni == e2eTwice {
+					s.OnEvent(n.Name, mk(100+ni))
+				}
 			}
 			// decoy: a name nobody emits
 			s.OnEvent("never-emitted", func(m e2eMeta, x int) {
@@ -739,6 +749,10 @@ func e2eRunScenario(scn e2eScn, lim e2eLimits) (row e2eRow) {
 		if scn.Dir == "s2c" {
 			for _, ni := range scn.Names {
 				cs.OnEvent(table[ni].Name, rec.handler(ci, ni, &table[ni]))
+				if ni == e2eTwice {
+					// a second registration for the same name: must be handed every event too
+					cs.OnEvent(table[ni].Name, rec.handler(ci, 100+ni, &table[ni]))
+				}
 			}
 			cs.OnEvent("never-emitted", func(m e2eMeta, x int) {
 				rec.mu.Lock()
@@ -833,6 +847,9 @@ func e2eRunScenario(scn e2eScn, lim e2eLimits) (row e2eRow) {
 				ev.OK, ev.Key = e2ePredict(&scn, n, &ev, lim)
 				if ev.OK {
 					expected++
+					if ni == e2eTwice {
+						expected++
+					}
 				}
 				plans[c][e] = append(plans[c][e], planned{ev: ev, pad: pad})
 				row.Emitted = append(row.Emitted, ev)
